@@ -336,3 +336,84 @@ Proof.
     apply andb_true_iff in H as [H1 H2]. unfold event_ok in H1. apply andb_true_iff in H1 as [_ H1].
     rewrite H1. auto.
 Qed.
+
+(* ------------------------------------------------------------------ *)
+(** * Events without data between the messages                          *)
+(* ------------------------------------------------------------------ *)
+Lemma noise_lines_safe : forall c n, noise_ok n = true -> forallb line_safe (noise_lines c n) = true.
+Proof.
+  intros c n H. destruct n as [name|s]; cbn [noise_lines noise_ok forallb] in *.
+  - unfold sp, k_event, line_safe in *. destruct (ec_space c); cbn [app forallb]; rewrite H; reflexivity.
+  - unfold line_safe in *. cbn [forallb]. rewrite H. reflexivity.
+Qed.
+
+Lemma classify_typed_noise : forall c name,
+  exists v, classify_line (k_event ++ sp c ++ name) = LEvent v.
+Proof.
+  intros c name. unfold classify_line, parse_sse_line, k_event, sp.
+  destruct (ec_space c); cbn [app starts_with]; cbn; eauto.
+Qed.
+
+Lemma run_noise : forall c n rest,
+  sse_run classify_line dispatchable_data None [] (noise_lines c n ++ rest)
+  = sse_run classify_line dispatchable_data None [] rest.
+Proof.
+  intros c n rest. destruct n as [name|s]; cbn [noise_lines app].
+  - destruct (classify_typed_noise c name) as [v E].
+    assert (Hne : exists a t, k_event ++ sp c ++ name = a :: t) by (unfold k_event; cbn; eauto).
+    destruct Hne as (a & t & Ea). cbn [sse_run]. rewrite Ea. rewrite <- Ea. rewrite E.
+    cbn [sse_run]. unfold sse_flush, dispatchable_data. reflexivity.
+  - cbn [sse_run]. change (classify_line (58 :: s)) with LSkip.
+    cbn [sse_run]. unfold sse_flush, dispatchable_data. reflexivity.
+Qed.
+
+Lemma run_noises : forall c ns rest,
+  sse_run classify_line dispatchable_data None [] (flat_map (noise_lines c) ns ++ rest)
+  = sse_run classify_line dispatchable_data None [] rest.
+Proof.
+  intros c ns rest. induction ns as [|n ns IH]; [reflexivity|].
+  cbn [flat_map]. rewrite <- app_assoc. rewrite run_noise. exact IH.
+Qed.
+
+Lemma noisy_lines_safe : forall ns c m,
+  forallb noise_ok ns = true -> event_ok (c, m) = true ->
+  forallb line_safe (flat_map (noise_lines c) ns ++ event_lines c m) = true.
+Proof.
+  intros ns c m Hn He. rewrite forallb_app. rewrite (event_lines_safe c m He), andb_true_r.
+  induction ns as [|n ns IH]; [reflexivity|].
+  cbn [flat_map forallb] in *. apply andb_true_iff in Hn as [H1 H2].
+  rewrite forallb_app, (noise_lines_safe c n H1). cbn [andb]. auto.
+Qed.
+
+Lemma sse_lines_encode_noisy : forall l,
+  forallb noisy_event_ok l = true ->
+  sse_lines (sse_encode_noisy l)
+  = flat_map (fun x => flat_map (noise_lines (fst (snd x))) (fst x) ++ event_lines (fst (snd x)) (snd (snd x))) l ++ [[]].
+Proof.
+  induction l as [|[ns [c m]] l IH]; intros H.
+  - reflexivity.
+  - simpl in H. apply andb_true_iff in H as [H1 H2]. unfold noisy_event_ok in H1. cbn [fst snd] in H1.
+    apply andb_true_iff in H1 as [Hn He].
+    unfold sse_encode_noisy. cbn [flat_map fst snd]. fold (sse_encode_noisy l).
+    unfold encode_noisy_event. rewrite sse_lines_many by (apply noisy_lines_safe; assumption).
+    rewrite IH by exact H2. rewrite <- !app_assoc. reflexivity.
+Qed.
+
+(** Data-less events change nothing: the parser hands json.loads exactly the messages, in order - whatever typed
+    keep-alives and comment-only blocks sit between them, and whatever event type those name. *)
+Theorem sse_roundtrip_noisy : forall l,
+  forallb noisy_event_ok l = true -> sse_messages (sse_encode_noisy l) = map (fun x => snd (snd x)) l.
+Proof.
+  intros l H. unfold sse_messages, sse_events. rewrite sse_lines_encode_noisy by exact H.
+  induction l as [|[ns [c m]] l IH].
+  - reflexivity.
+  - simpl in H. apply andb_true_iff in H as [H1 H2]. unfold noisy_event_ok in H1. cbn [fst snd] in H1.
+    apply andb_true_iff in H1 as [Hn He].
+    cbn [flat_map fst snd map]. rewrite <- !app_assoc. rewrite run_noises.
+    assert (Hm : msg_ok m = true) by (unfold event_ok in He; cbn [fst snd] in He; apply andb_true_iff in He as [_ He]; exact He).
+    rewrite (run_event classify_line dispatchable_data (fun _ => true)); auto.
+    + cbn [flat_map]. rewrite (payload_of_event c m Hm). cbn [opt_list app]. f_equal. apply IH. exact H2.
+    + intros. apply classify_extra.
+    + intros. apply classify_event.
+    + intros. apply classify_data. assumption.
+Qed.
